@@ -20,8 +20,9 @@
 (* state of that program: a scope tree with  bind : Scope -> Name ->       *)
 (* ClassId (0 = unbound; a NEW identity for every executed class           *)
 (* statement) and, per decorated callable and per form of the annotation   *)
-(* (string literal, postponed, evaluated), what the decorator stored for   *)
-(* each name of the hint:                                                  *)
+(* (one string 'list[N]', postponed by the __future__ import, a string     *)
+(* nested in the hint list['N']; the evaluated form is Python's own        *)
+(* capture, field evcap), what the decorator stored for each name:         *)
 (*     cap    the class found by eval() in the forward scope at decoration *)
 (*     proxy  an unresolved forward-reference proxy  (loc: it carries the  *)
 (*            code object of the parent scope)                             *)
@@ -34,8 +35,11 @@
 (* the module; no parent code object -> forward-reference exception;       *)
 (* parent frame on the stack -> its locals; otherwise the fallback.        *)
 (* The five BOOLEAN constants switch on what 0.23.0 does where it departs  *)
-(* from lexical scoping; all FALSE is the intended design (must satisfy    *)
-(* every invariant), each one TRUE is a spec mutant TLC must reject:       *)
+(* from lexical scoping (GlobalFirst, FakeFallback, FrameByCode,           *)
+(* SharedProxy: all four TRUE reproduced 100% of 4*10^5 recorded outcomes  *)
+(* of the real code) or a plausible wrong design (CacheFailure); all FALSE *)
+(* is the intended design (must satisfy every invariant), each one TRUE    *)
+(* alone is a spec mutant TLC must reject:                                 *)
 (*   GlobalFirst   module attribute wins over a binding of the enclosing   *)
 (*                 function / class body (at decoration: an enclosing-     *)
 (*                 function local that is still unbound is taken from the  *)
@@ -46,8 +50,8 @@
 (*   FrameByCode   the parent frame is searched by code object: another    *)
 (*                 activation of the enclosing function is taken for the   *)
 (*                 decorating one                                          *)
-(*   SharedProxy   hints are de-duplicated by repr(), and the repr of a     *)
-(*                 proxy names only the module and the name: the container *)
+(*   SharedProxy   hints are de-duplicated by repr(); a proxy inside a     *)
+(*                 hint prints as module.name only: the container          *)
 (*                 hint of the closure made by a second activation is      *)
 (*                 replaced by the first activation's hint object, proxies *)
 (*                 and their cached referents included                     *)
